@@ -211,6 +211,14 @@ def recover_tree(out, syntax, indent):
 
 
 def oracle(abbr, cfg, meta, r):
+    bad = oracle_plain(abbr, cfg, meta, r)
+    if bad and BREAK_BEFORE_FIELD_ON and getattr(bad, 'key', None) is None and BREAK_BEFORE_FIELD_RE.search(abbr):
+        bad = ListedVerdict(bad)
+        bad.key = KEY_BREAK_BEFORE_FIELD
+    return bad
+
+
+def oracle_plain(abbr, cfg, meta, r):
     if meta and meta.get('snip'):
         return oracle_snip(abbr, cfg, meta, r)      # trees with snippet names / text-only nodes: see SNIPS_ON
     if r[0] != 'ok':
@@ -1742,6 +1750,69 @@ def gen_snips(ctx):
     return cases
 
 
+# ON: texts in which a line break stands DIRECTLY before a `${n}` / `${n:placeholder}` field (`p{one\n${1:two} three}`).
+# The text has two lines, the statement asks for one line per text line one level deeper; the unchanged library writes
+# `p onetwo three`: split_by_lines() (markup/format/utils.py) drops the trailing line break of every STRING token of the
+# value, also when a field token follows (str.splitlines() semantics kept by repair 8453eaf; the JS original splits with
+# a regex and keeps it).  The same cause is listed for C06 (c06:raw-linebreak-before-field-or-end).  A repair changes
+# OutputStream.push_string / split_by_lines for every text that ends in a line break (five properties' models): not
+# small, listed instead.  Every failing input of this class carries the line break + `${digit` in its text.
+BREAK_BEFORE_FIELD_ON = True      # listed finding C15:line-break-before-field-lost
+KEY_BREAK_BEFORE_FIELD = 'C15:line-break-before-field-lost'
+BREAK_BEFORE_FIELD_RE = re.compile(r'(?:\r\n|\r|\n)\$\{\d')
+
+
+def gen_break_before_field(ctx):
+    rng = ctx.rng
+    cases = []
+    n = 90 if ctx.tier == 'quick' else 1500
+    for k in range(n):
+        syntax = SYNTAXES[k % 3]
+        indent = rng.choice(INDENTS[:4])
+        nl = rng.choice(['\n', '\n', '\r\n', '\r'])
+        nlines = rng.choice([2, 2, 3, 4])
+        at = set(rng.sample(range(1, nlines), rng.randint(1, nlines - 1)))     # lines that START with a field
+        raw, shown = [], []
+        for j in range(nlines):
+            w = rand_word(rng, 'abcxyzTQ', SNIP_TEXT_CH, 1, 8).rstrip()
+            if j in at:
+                idx = rng.randint(0, 3)
+                ph = rng.choice(['', '', 'ph', 'q r'])
+                raw.append(('${%d:%s}' % (idx, ph) if ph else '${%d}' % idx) + w)
+                shown.append(ph + w)
+            else:
+                raw.append(w)
+                shown.append(w)
+        shape = rng.choice(['alone', 'child', 'parent', 'sibling', 'repeat'])
+        def stmt_of(text):
+            e = g.El(name=rng_name, text=text)
+            if shape == 'alone':
+                return [(e, '')]
+            if shape == 'child':
+                return [(g.El(name='div'), '>'), (e, '')]
+            if shape == 'parent':
+                return [(e, '>'), (g.El(name='b'), '')]
+            if shape == 'sibling':
+                return [(g.El(name='a'), '+'), (e, '+'), (g.El(name='i'), '')]
+            e.repeat = 2
+            return [(g.El(name='ul'), '>'), (e, '')]
+        rng_name = rng.choice(['p', 'li', 'h1', 'x'])
+        abbr = g.render(stmt_of(nl.join(raw)))
+        tree = g.unroll(g.denote_stmt(stmt_of('\n'.join(shown))))
+        cfg = cfg_of(syntax, indent)
+        lines = expected_lines(tree, syntax, indent, 0, writer_of(cfg['options'], syntax))
+        cases.append((abbr, cfg, {'tree': True, 'lines': lines}))
+        ctx.cover('gen:line-break-before-field')
+        ctx.nontrivial((abbr, syntax, indent))
+    return cases
+
+
+def fieldbreak_stage(ctx, model):
+    cases = gen_break_before_field(ctx)
+    run_cases(ctx, model, cases, 'C15fieldbreak', oracle)
+    return cases
+
+
 def snips_stage(ctx, model):
     cases = gen_snips(ctx)
     run_cases(ctx, model, cases, 'C15snip', oracle)
@@ -2022,6 +2093,8 @@ def run(ctx):
         scases = snips_stage(ctx, model)
         if len(ctx.violations) > had:
             settle_replays(ctx, {'C15snip': scases})
+    if BREAK_BEFORE_FIELD_ON:
+        fieldbreak_stage(ctx, model)
     shown = 0
     for (abbr, cfg, meta), r in zip(cases, impl):
         if shown < 6 and r[0] == 'ok' and len(meta['lines']) >= 4 and '\n' in abbr:
